@@ -96,3 +96,99 @@ def selftest_iban():
                 raise HarnessError(f"O-iban disagrees with the repository's {name} literal {lit!r}")
         out[name] = len(lits)
     return out
+
+
+# ---------------------------------------------------------------------------------------------------------------
+# The whole code space at one position (C01, C05): every code point 0..0x10FFFF replaces one BBAN character of a valid
+# IBAN. A character that some Unicode mapping turns into an ASCII letter/digit replaces exactly that letter/digit, so
+# that a library rewriting it would arrive at a valid IBAN.
+
+def codepoint_texts(lo, hi, seed):
+    import random
+    from ..oracles.core import ASCII_UPPER
+    o, g = oracle(), gen()
+    rng = random.Random(f"{seed}:codepoints")
+    ccs = [cc for cc in o.countries() if o.fixed[cc] and "c" in o.fixed[cc]]
+    cc = rng.choice(ccs)
+    p = rng.choice([i for i, k in enumerate(o.fixed[cc]) if k == "c"])
+    b0 = g.bban(cc, rng, "letters")
+    bases = {}
+
+    def base_with(a):
+        if a not in bases:
+            b = b0[:p] + a + b0[p + 1:]
+            bases[a] = g.iban_of(cc, b)
+        return bases[a]
+    for cp in range(lo, hi):
+        ch = chr(cp)
+        eq = gens.ascii_equivalents(ch)
+        for a in (eq or [b0[p]]):
+            base = base_with(a)
+            yield ch, bool(eq), base[:4 + p] + ch + base[5 + p:]
+
+
+# ---------------------------------------------------------------------------------------------------------------
+# Component values taken from the literals of the source (vlib/dims.py literal_dictionary)
+
+def literal_component_sets(cc, rng, limit=600, few=8):
+    """(bank, branch, account) with bank and account (and sometimes the branch) taken from the source's literals where they fit
+    the country's fields; all fitting pairs for countries the source names, a few for the others."""
+    from .. import dims
+    from .c08 import conforming, field_info
+    o = oracle()
+    if not o.positions(cc) or "bank_code" not in o.positions(cc) or "account_code" not in o.positions(cc):
+        return []
+    fi = field_info(cc)
+    w = {k: fi[k][1] - fi[k][0] for k in fi}
+    lits = dims.literal_dictionary()
+    lb = [x for x in lits if dims.literal_fits(x, fi["bank_code"][2])]
+    la = [x for x in lits if dims.literal_fits(x, fi["account_code"][2])]
+    lr = [x for x in lits if dims.literal_fits(x, fi["branch_code"][2])] if w["branch_code"] else []
+    if cc not in dims.literal_countries(o):
+        lb, la, lr = lb[:few], la[:few], lr[:2]
+        limit = few
+    out = []
+    for b in lb:
+        for a in la:
+            r = ""
+            if w["branch_code"]:
+                r = rng.choice(lr) if (lr and rng.random() < 0.3) else conforming(rng, fi["branch_code"][2], w["branch_code"])
+            out.append((b, r, a))
+    if len(out) > limit:
+        # keep every literal at least once, then a sample of the pairs
+        keep = {}
+        for t in out:
+            keep.setdefault(("b", t[0]), t)
+            keep.setdefault(("a", t[2]), t)
+        rest = [t for t in out if t not in keep.values()]
+        out = list(dict.fromkeys(keep.values())) + rng.sample(rest, max(0, limit - len(keep)))
+    return out
+
+
+def literal_bbans(cc, rng, limit=600, few=8):
+    """Structure-conforming BBANs whose bank / branch / account fields hold source literals (left-padded with zeros, as
+    generation would pad them); the remaining positions are random."""
+    from .c08 import field_info
+    o, g = oracle(), gen()
+    out = []
+    sets = literal_component_sets(cc, rng, limit, few)
+    if not sets:
+        return out
+    fi = field_info(cc)
+    for b, r, a in sets:
+        bban = list(g.bban(cc, rng))
+        for k, v in (("bank_code", b), ("branch_code", r), ("account_code", a)):
+            s_, e_ = fi[k][0], fi[k][1]
+            if e_ > s_ and v:
+                v = v.rjust(e_ - s_, "0")[: e_ - s_]
+                bban[s_:e_] = list(v)
+        t = "".join(bban)
+        if matches(cc, t):
+            out.append(((b, r, a), t))
+    return out
+
+
+def matches(cc, bban):
+    from ..oracles.core import matches_structure
+    o = oracle()
+    return len(bban) == o.bban_length(cc) and matches_structure(o.toks[cc], bban)
